@@ -878,6 +878,13 @@ impl<'tera> VirtualMachine<'tera> {
                     } else {
                         &root
                     };
+                    // A map can hold an undefined value: same error as WriteTop
+                    if val.is_undefined() {
+                        rendering_error!(
+                            format!("Tried to render a variable that is not defined"),
+                            span: chunk.get_span_at(current_ip, num_attrs)
+                        );
+                    }
 
                     if !self.autoescape_enabled() || val.is_safe() {
                         #[cfg(feature = "tera_verif")]
